@@ -300,6 +300,43 @@ theorem wire_position (w : Nat) (r : Int) (hw : 0 < w) (h1 : -(2 : Int) ^ (w - 1
   refine ⟨by simp [ofInt], ⟨fun h => (by cases h), fun _ h => (by cases h)⟩, ?_⟩
   simp only [check, beq_iff_eq, toInt_ofInt w r hw ⟨h1, h2⟩]
 
+/-- every multiple of 0.1 of the signed range (tenths of minutes) -/
+theorem wire_signed_tenths (w : Nat) (r : Int) (hw : 0 < w) (h1 : -(2 : Int) ^ (w - 1) ≤ r) (h2 : r < 2 ^ (w - 1)) :
+    (ofInt w r).length = w ∧ SliceOK C08.E.membersOf .I1 (ofInt w r) ∧
+      check C08.E.membersOf .I1 (ofInt w r) (.flt (r * 100000)) = true := by
+  refine ⟨by simp [ofInt], ⟨fun h => (by cases h), fun _ h => (by cases h)⟩, ?_⟩
+  simp only [check, beq_iff_eq, toInt_ofInt w r hw ⟨h1, h2⟩]
+
+/-- every position of the 1/10-minute grid (type 27) -/
+theorem wire_position600 (w : Nat) (r : Int) (hw : 0 < w) (h1 : -(2 : Int) ^ (w - 1) ≤ r) (h2 : r < 2 ^ (w - 1)) :
+    (ofInt w r).length = w ∧ SliceOK C08.E.membersOf .I600 (ofInt w r) ∧
+      check C08.E.membersOf .I600 (ofInt w r) (.flt (roundHalfEvenDiv (r * 1000000) 600)) = true := by
+  refine ⟨by simp [ofInt], ⟨fun h => (by cases h), fun _ h => (by cases h)⟩, ?_⟩
+  simp only [check, beq_iff_eq, toInt_ofInt w r hw ⟨h1, h2⟩]
+
+/-- every whole number below `2^w` of a quantity reported as float (knots, degrees) -/
+theorem wire_unsigned_float (w i : Nat) (h : i < 2 ^ w) :
+    (ofNat w i).length = w ∧ SliceOK C08.E.membersOf .uf (ofNat w i) ∧
+      check C08.E.membersOf .uf (ofNat w i) (.flt ((i : Int) * MICRO)) = true := by
+  refine ⟨ofNat_length w i, ⟨fun h => (by cases h), fun _ h => (by cases h)⟩, ?_⟩
+  simp only [check, beq_iff_eq, toNat_ofNat, Nat.mod_eq_of_lt h]
+
+/-- every binary content of the field's width (reported as octets, left-aligned) -/
+theorem wire_binary (b : Bits) :
+    SliceOK C08.E.membersOf .d b ∧ check C08.E.membersOf .d b (.bytes (toBytes b)) = true := by
+  refine ⟨⟨fun h => (by cases h), fun _ h => (by cases h)⟩, ?_⟩
+  simp only [check, beq_self_eq_true]
+
+/-- every rate of turn the standard assigns to one of the 256 raw values -/
+theorem wire_rot (r : Int) (h1 : -128 ≤ r) (h2 : r ≤ 127) :
+    (ofInt 8 r).length = 8 ∧ SliceOK C08.E.membersOf .ROT (ofInt 8 r) ∧
+      check C08.E.membersOf .ROT (ofInt 8 r) (rot r) = true := by
+  refine ⟨by simp [ofInt], ⟨fun h => (by cases h), fun _ h => (by cases h)⟩, ?_⟩
+  have : toInt (ofInt 8 r) = r := toInt_ofInt 8 r (by decide) ⟨by simpa using h1, by
+    have : (2 : Int) ^ (8 - 1) = 128 := by decide
+    omega⟩
+  simp only [check, this, beq_self_eq_true]
+
 /-- every canonical text (characters of the six-bit alphabet other than `@`, no outer blanks) that
 fits the field, padded with `@` -/
 theorem wire_text (s : List Nat) (hs : CanonText s) (w : Nat) (hlen : s.length ≤ w / 6) :
@@ -440,6 +477,11 @@ example : Wire C08.E Generated.T_MessageType10
 #print axioms wire_tenths
 #print axioms wire_position
 #print axioms wire_text
+#print axioms wire_signed_tenths
+#print axioms wire_position600
+#print axioms wire_unsigned_float
+#print axioms wire_binary
+#print axioms wire_rot
 #print axioms C02_encode_dict
 #print axioms C02_create
 #print axioms C02_quantisation_positions
